@@ -38,14 +38,16 @@ type Program struct {
 
 type lmatch struct {
 	neg  bool
-	kind string // T F E H _true _false
+	kind string // T F E H _true _false | per-query state: K:n (has mark n) V:k (value k stored) Q:n (query id is n) R:n (response rcode is n) | mark (the real plugin/mark matcher, args = marks)
+	args []int
 }
 
 type laction struct {
-	op     string // plain wrap accept reject return jump goto
-	kind   string // plain: ok err set drop; wrap: once stop zero post postset swallow twice twicedrop conc
+	op     string // plain wrap accept reject return jump goto | mark (the real plugin/mark executable, args = marks)
+	kind   string // plain: ok err set drop | per-query state: mk:n um:n (set/delete mark n) sv:k dv:k (store/delete value k) qi:n (query id := n) rm:n (response rcode := n, in place); wrap: see wrapKinds
 	target int
 	rcode  string // reject argument text ("" = none)
+	args   []int
 }
 
 type lrule struct {
@@ -109,6 +111,11 @@ func render(lp *lprog, rng *rand.Rand) *Program {
 				switch m.kind {
 				case "_true", "_false":
 					s += m.kind
+				case "mark":
+					s += "mark"
+					for _, a := range m.args {
+						s += sep() + strconv.Itoa(a)
+					}
 				default:
 					s += harness('m', m.kind, fmt.Sprintf("s%dr%dm%d", si, ri, mi))
 				}
@@ -123,6 +130,11 @@ func render(lp *lprog, rng *rand.Rand) *Program {
 				s += harness('w', withID(r.act.kind), label)
 			case "accept", "return":
 				s += r.act.op
+			case "mark":
+				s += "mark"
+				for _, a := range r.act.args {
+					s += sep() + strconv.Itoa(a)
+				}
 			case "reject":
 				s += "reject"
 				if r.act.rcode != "" {
@@ -177,7 +189,152 @@ func genMatcher(rng *rand.Rand) lmatch {
 	}
 }
 
-var wrapKinds = []string{"once", "stop", "zero", "post", "postset", "swallow", "twice", "twicedrop", "conc", "lateg", "lategc", "later", "laterc", "later3"}
+// cpa / cpb / cpc: the wrapper takes a Copy of the query and runs the continuation on
+// BOTH the original and the copy: original first (fallback style), copy first, or
+// concurrently (copy on a new goroutine: lazy cache update / dual_selector style).
+var wrapKinds = []string{"once", "stop", "zero", "post", "postset", "swallow", "twice", "twicedrop", "conc", "lateg", "lategc", "later", "laterc", "later3", "cpa", "cpb", "cpc"}
+
+// wrappers after which two query contexts related by Copy both exist and at least one keeps executing rules
+var copyingKinds = []string{"conc", "lateg", "lategc", "later", "laterc", "later3", "cpa", "cpb", "cpc"}
+
+func isMultiplier(k string) bool {
+	switch k {
+	case "twice", "twicedrop", "conc", "lategc", "laterc", "cpa", "cpb", "cpc":
+		return true
+	}
+	return false
+}
+
+// per-query state universe used by the generators: marks 1..3 (+ one large), value keys 0..2,
+// query ids {7, 8, queryID}, response rcodes {0, 3, 9}
+var (
+	markUniverse  = []int{1, 2, 3, 1, 2, 4000000000}
+	qidUniverse   = []int{7, 8, queryID}
+	rcodeUniverse = []int{0, 3, 9}
+)
+
+func kindN(k string, n int) string { return k + ":" + strconv.Itoa(n) }
+
+func pickInt(rng *rand.Rand, xs []int) int { return xs[rng.Intn(len(xs))] }
+
+// genStateMatcher: a matcher whose verdict depends on per-query state other than "has a response"
+func genStateMatcher(rng *rand.Rand) lmatch {
+	neg := rng.Intn(3) == 0
+	switch x := rng.Intn(100); {
+	case x < 35: // real plugin/mark matcher, one or two marks (true if any is set)
+		args := []int{pickInt(rng, markUniverse)}
+		if rng.Intn(4) == 0 {
+			args = append(args, pickInt(rng, markUniverse))
+		}
+		return lmatch{neg: neg, kind: "mark", args: args}
+	case x < 60:
+		return lmatch{neg: neg, kind: kindN("K", pickInt(rng, markUniverse))}
+	case x < 78:
+		return lmatch{neg: neg, kind: kindN("V", rng.Intn(3))}
+	case x < 89:
+		return lmatch{neg: neg, kind: kindN("Q", pickInt(rng, qidUniverse))}
+	default:
+		return lmatch{neg: neg, kind: kindN("R", pickInt(rng, rcodeUniverse))}
+	}
+}
+
+// genStateAction: a plain action that writes per-query state
+func genStateAction(rng *rand.Rand) laction {
+	switch x := rng.Intn(100); {
+	case x < 30:
+		args := []int{pickInt(rng, markUniverse)}
+		if rng.Intn(5) == 0 {
+			args = append(args, pickInt(rng, markUniverse))
+		}
+		return laction{op: "mark", args: args}
+	case x < 45:
+		return laction{op: "plain", kind: kindN("mk", pickInt(rng, markUniverse))}
+	case x < 60:
+		return laction{op: "plain", kind: kindN("um", pickInt(rng, markUniverse))}
+	case x < 72:
+		return laction{op: "plain", kind: kindN("sv", rng.Intn(3))}
+	case x < 80:
+		return laction{op: "plain", kind: kindN("dv", rng.Intn(3))}
+	case x < 88:
+		return laction{op: "plain", kind: kindN("qi", pickInt(rng, qidUniverse))}
+	case x < 94:
+		return laction{op: "plain", kind: kindN("rm", pickInt(rng, rcodeUniverse))}
+	default:
+		return laction{op: "plain", kind: "set"}
+	}
+}
+
+// genStateful: random programs whose rules read and write per-query state (marks via the
+// real plugin/mark and via harness plugins, stored values, the query message, the response
+// in place) around wrappers that run the continuation on copies of the query.
+func genStateful(rng *rand.Rand, idx int64) *lprog {
+	lp := &lprog{origin: "stateful#" + strconv.FormatInt(idx, 10)}
+	n := 1 + rng.Intn(4)
+	multipliers := 0
+	for s := 0; s < n; s++ {
+		nr := 1 + rng.Intn(8)
+		rules := make([]lrule, 0, nr+1)
+		if rng.Intn(2) == 0 {
+			// the query already carries some state when the first wrapper copies it
+			rules = append(rules, lrule{act: genStateAction(rng)})
+		}
+		for r := 0; r < nr; r++ {
+			var lr lrule
+			nm := 0
+			switch x := rng.Intn(10); {
+			case x < 3:
+			case x < 8:
+				nm = 1
+			case x < 9:
+				nm = 2
+			default:
+				nm = 3
+			}
+			for i := 0; i < nm; i++ {
+				if rng.Intn(10) < 7 {
+					lr.ms = append(lr.ms, genStateMatcher(rng))
+				} else {
+					lr.ms = append(lr.ms, genMatcher(rng))
+				}
+			}
+			x := rng.Intn(100)
+			switch {
+			case x < 38:
+				lr.act = genStateAction(rng)
+			case x < 50:
+				lr.act = laction{op: "plain", kind: "ok"}
+			case x < 54:
+				lr.act = laction{op: "plain", kind: pick(rng, "set", "drop", "err")}
+			case x < 57:
+				lr.act = laction{op: pick(rng, "accept", "return", "return")}
+			case x < 59:
+				lr.act = laction{op: "reject", rcode: rejectArgs[rng.Intn(len(rejectArgs))]}
+			case x < 72 && s > 0:
+				lr.act = laction{op: "jump", target: rng.Intn(s)}
+			case x < 75 && s > 0:
+				lr.act = laction{op: "goto", target: rng.Intn(s)}
+			case x < 75:
+				lr.act = genStateAction(rng)
+			default:
+				k := copyingKinds[rng.Intn(len(copyingKinds))]
+				if rng.Intn(5) == 0 {
+					k = pick(rng, "twice", "post", "once", "twicedrop")
+				}
+				if isMultiplier(k) {
+					if multipliers >= 3 {
+						k = pick(rng, "later", "lateg", "later3", "post")
+					} else {
+						multipliers++
+					}
+				}
+				lr.act = laction{op: "wrap", kind: k}
+			}
+			rules = append(rules, lr)
+		}
+		lp.seqs = append(lp.seqs, rules)
+	}
+	return lp
+}
 
 func genRandom(rng *rand.Rand, idx int64) *lprog {
 	lp := &lprog{origin: "random#" + strconv.FormatInt(idx, 10)}
@@ -231,7 +388,7 @@ func genRandom(rng *rand.Rand, idx int64) *lprog {
 				lr.act = laction{op: "plain", kind: "ok"}
 			default:
 				k := wrapKinds[rng.Intn(len(wrapKinds))]
-				if k == "twice" || k == "twicedrop" || k == "conc" || k == "lategc" || k == "laterc" {
+				if isMultiplier(k) {
 					if multipliers >= 3 {
 						k = pick(rng, "once", "post", "postset", "swallow")
 					} else {
@@ -289,8 +446,8 @@ func cat(parts ...[]lrule) []lrule {
 }
 
 var matcherForms = []lmatch{
-	{false, "T"}, {true, "T"}, {false, "F"}, {true, "F"}, {false, "E"}, {true, "E"},
-	{false, "H"}, {true, "H"}, {false, "_true"}, {true, "_true"}, {false, "_false"}, {true, "_false"},
+	{neg: false, kind: "T"}, {neg: true, kind: "T"}, {neg: false, kind: "F"}, {neg: true, kind: "F"}, {neg: false, kind: "E"}, {neg: true, kind: "E"},
+	{neg: false, kind: "H"}, {neg: true, kind: "H"}, {neg: false, kind: "_true"}, {neg: true, kind: "_true"}, {neg: false, kind: "_false"}, {neg: true, kind: "_false"},
 }
 
 // templates returns the deterministic corner-case families.
@@ -418,6 +575,77 @@ func templates() []*lprog {
 				s1 := []lrule{actRule(laction{op: "wrap", kind: wi}), actRule(laction{op: "jump", target: 0}), okRule()}
 				s2 := []lrule{actRule(laction{op: "wrap", kind: wo}), actRule(laction{op: "jump", target: 1}), {ms: []lmatch{{kind: "H"}}, act: laction{op: "plain", kind: "ok"}}}
 				out = append(out, &lprog{origin: fmt.Sprintf("G6 outer=%s inner=%s z=%s", wo, wi, z.name), seqs: [][]lrule{s0, s1, s2}})
+			}
+		}
+	}
+	// G7: per-query state around copying wrappers. The entry pre-seeds state (none / the
+	// key under test / another key / both), a wrapper W runs the continuation on the
+	// original and/or on copies, and the continuation reads key X (plain and negated),
+	// writes X (set or clear), reads X again, writes another key Y and reads it - inline or
+	// inside a jumped sequence (so that the pending return is part of the continuation),
+	// followed by a read after the jump returned. Every context must see the state as it
+	// was when it was copied plus its own writes.
+	type dim struct {
+		name                   string
+		rdX, rdY               lmatch
+		setX, clrX, setY, seed laction
+	}
+	plain := func(k string, n int) laction { return laction{op: "plain", kind: kindN(k, n)} }
+	dims := []dim{
+		{name: "mark-real", rdX: lmatch{kind: "mark", args: []int{2}}, rdY: lmatch{kind: "mark", args: []int{3}},
+			setX: laction{op: "mark", args: []int{2}}, clrX: plain("um", 2), setY: laction{op: "mark", args: []int{3}}, seed: laction{op: "mark", args: []int{1}}},
+		{name: "mark-harness", rdX: lmatch{kind: "K:2"}, rdY: lmatch{kind: "K:3"},
+			setX: plain("mk", 2), clrX: plain("um", 2), setY: plain("mk", 3), seed: plain("mk", 1)},
+		{name: "mark-mixed", rdX: lmatch{kind: "mark", args: []int{2, 4000000000}}, rdY: lmatch{kind: "K:4000000000"},
+			setX: plain("mk", 2), clrX: plain("um", 2), setY: laction{op: "mark", args: []int{4000000000, 3}}, seed: laction{op: "mark", args: []int{1}}},
+		{name: "value", rdX: lmatch{kind: "V:1"}, rdY: lmatch{kind: "V:2"},
+			setX: plain("sv", 1), clrX: plain("dv", 1), setY: plain("sv", 2), seed: plain("sv", 0)},
+		{name: "query-id", rdX: lmatch{kind: "Q:7"}, rdY: lmatch{kind: "Q:8"},
+			setX: plain("qi", 7), clrX: plain("qi", queryID), setY: plain("qi", 8), seed: plain("qi", 9)},
+		{name: "response-in-place", rdX: lmatch{kind: "R:3"}, rdY: lmatch{kind: "R:9"},
+			setX: plain("rm", 3), clrX: plain("rm", 0), setY: plain("rm", 9), seed: laction{op: "plain", kind: "set"}},
+	}
+	g7wraps := append(append([]string{}, copyingKinds...), "twice", "post", "once")
+	for _, d := range dims {
+		for _, w := range g7wraps {
+			for pre := 0; pre < 4; pre++ { // bit 0: another key / the response is present; bit 1: X itself is set
+				for _, clear := range []bool{false, true} {
+					for _, nested := range []bool{false, true} {
+						neg := func(m lmatch) lmatch { m.neg = true; return m }
+						wr := d.setX
+						if clear {
+							wr = d.clrX
+						}
+						body := []lrule{
+							{ms: []lmatch{d.rdX}, act: laction{op: "plain", kind: "ok"}},
+							{ms: []lmatch{neg(d.rdX)}, act: laction{op: "plain", kind: "ok"}},
+							actRule(wr),
+							{ms: []lmatch{d.rdX}, act: laction{op: "plain", kind: "ok"}},
+							{ms: []lmatch{neg(d.rdX)}, act: laction{op: "plain", kind: "ok"}},
+							actRule(d.setY),
+							{ms: []lmatch{d.rdY, neg(d.rdX)}, act: laction{op: "plain", kind: "ok"}},
+						}
+						var entry []lrule
+						if pre&1 != 0 || d.name == "response-in-place" {
+							entry = append(entry, actRule(d.seed))
+						}
+						if pre&2 != 0 {
+							entry = append(entry, actRule(d.setX))
+						}
+						entry = append(entry, actRule(laction{op: "wrap", kind: w}))
+						var seqs [][]lrule
+						if nested {
+							seqs = append(seqs, body)
+							entry = append(entry, actRule(laction{op: "jump", target: 0}),
+								lrule{ms: []lmatch{d.rdX}, act: laction{op: "plain", kind: "ok"}},
+								lrule{ms: []lmatch{d.rdY}, act: laction{op: "plain", kind: "ok"}})
+						} else {
+							entry = append(entry, body...)
+						}
+						seqs = append(seqs, entry)
+						out = append(out, &lprog{origin: fmt.Sprintf("G7 state=%s w=%s pre=%d clear=%v nested=%v", d.name, w, pre, clear, nested), seqs: seqs})
+					}
+				}
 			}
 		}
 	}
